@@ -39,18 +39,19 @@ const coGroup = "g"
 var coTopicNames = []string{"ta", "tb", "tc", "tz"} // tz is never in the metadata
 
 type coOp struct {
-	K      string `json:"k"`                // join sync hb leave commit adv cleanup failover
-	M      int    `json:"m,omitempty"`      // member slot: index into the ids created so far; -1 = "", -2 = an id never issued
-	Sess   int32  `json:"sess,omitempty"`   // join: session timeout ms
-	Reb    int32  `json:"reb,omitempty"`    // join: rebalance timeout ms
-	Topics []int  `json:"topics,omitempty"` // join: subscription (indexes into coTopicNames)
-	G      int    `json:"g,omitempty"`      // generation selector: 0 current, 1 the member's last seen, 2 current-1, 3 current+1
-	T      int    `json:"t,omitempty"`      // commit: topic
-	P      int32  `json:"p,omitempty"`      // commit: partition
-	Off    int64  `json:"off,omitempty"`    // commit: offset
-	D      int64  `json:"d,omitempty"`      // adv: milliseconds
-	Inner  []coOp `json:"inner,omitempty"`  // operations that other clients issue while this operation is inside a store call
-	At     string `json:"at,omitempty"`     // which store call is parked: fetch put delete metadata commit; "" = the first one during which c.mu is free
+	K      string   `json:"k"`                // join sync hb leave commit adv cleanup failover
+	M      int      `json:"m,omitempty"`      // member slot: index into the ids created so far; -1 = "", -2 = an id never issued
+	Sess   int32    `json:"sess,omitempty"`   // join: session timeout ms
+	Reb    int32    `json:"reb,omitempty"`    // join: rebalance timeout ms
+	Topics []int    `json:"topics,omitempty"` // join: subscription (indexes into coTopicNames)
+	G      int      `json:"g,omitempty"`      // generation selector: 0 current, 1 the member's last seen, 2 current-1, 3 current+1
+	T      int      `json:"t,omitempty"`      // commit: topic
+	P      int32    `json:"p,omitempty"`      // commit: partition
+	Off    int64    `json:"off,omitempty"`    // commit: offset
+	D      int64    `json:"d,omitempty"`      // adv: milliseconds
+	Inner  []coOp   `json:"inner,omitempty"`  // operations that other clients issue while this operation is inside a store call
+	Fail   []string `json:"fail,omitempty"`   // store calls of this operation that fail once (transient store error): fetch persist commit
+	At     string   `json:"at,omitempty"`     // which store call is parked: fetch put delete metadata commit; "" = the first one during which c.mu is free
 }
 
 type coCase struct {
@@ -119,6 +120,7 @@ type coStep struct {
 	mem    *coGroupSnap
 	store  *coStoreSnap
 	offs   []int64
+	fail   []string // store faults injected into this operation
 }
 
 type coFail struct{ prop, key, what string }
@@ -136,40 +138,50 @@ type coFail struct{ prop, key, what string }
 // it (the linearisation the lock enforces) and nothing is flagged.
 type coStore struct {
 	*metadata.InMemoryStore
-	gate func(call string)
+	gate func(call string) error
 }
 
-func (s *coStore) pass(call string) {
+func (s *coStore) pass(call string) error {
 	if s.gate != nil {
-		s.gate(call)
+		return s.gate(call)
 	}
+	return nil
 }
 func (s *coStore) Metadata(ctx context.Context, topics []string) (*metadata.ClusterMetadata, error) {
-	s.pass("metadata")
+	_ = s.pass("metadata") // no faults are injected into Metadata (its fallback is not modelled)
 	return s.InMemoryStore.Metadata(ctx, topics)
 }
 func (s *coStore) PutConsumerGroup(ctx context.Context, group *metadatapb.ConsumerGroup) error {
-	s.pass("put")
+	if err := s.pass("put"); err != nil {
+		return err
+	}
 	return s.InMemoryStore.PutConsumerGroup(ctx, group)
 }
 func (s *coStore) FetchConsumerGroup(ctx context.Context, groupID string) (*metadatapb.ConsumerGroup, error) {
-	s.pass("fetch")
+	if err := s.pass("fetch"); err != nil {
+		return nil, err
+	}
 	return s.InMemoryStore.FetchConsumerGroup(ctx, groupID)
 }
 func (s *coStore) DeleteConsumerGroup(ctx context.Context, groupID string) error {
-	s.pass("delete")
+	if err := s.pass("delete"); err != nil {
+		return err
+	}
 	return s.InMemoryStore.DeleteConsumerGroup(ctx, groupID)
 }
 func (s *coStore) CommitConsumerOffset(ctx context.Context, group, topic string, partition int32, offset int64, md string) error {
-	s.pass("commit")
+	if err := s.pass("commit"); err != nil {
+		return err
+	}
 	return s.InMemoryStore.CommitConsumerOffset(ctx, group, topic, partition, offset, md)
 }
 
 // coGate: the window of one outer operation
 type coGate struct {
 	op          coOp
-	interleaved bool   // inner operations ran while a store call of the outer operation was parked
-	call        string // the store call during which c.mu was found free
+	interleaved bool            // inner operations ran while a store call of the outer operation was parked
+	call        string          // the store call during which c.mu was found free
+	fired       map[string]bool // injected store faults that hit a call of this operation: fetch persist commit
 }
 
 // ---------- the runner ----------
@@ -205,6 +217,7 @@ type coRunner struct {
 	// the harness's own bookkeeping of refresh times and session timeouts agrees with)
 	kw    *coGroupSnap
 	cur   *coGate // the operation being executed (nil between operations)
+	dirty bool    // a whole-group write (Put/Delete) failed and none has succeeded since: the store image is stale
 	depth int     // 1 = an operation of the history, 2 = an operation running inside another one's parked store call
 }
 
@@ -465,6 +478,9 @@ func (r *coRunner) newCoordinator() {
 // record finishes a step: snapshots + group-incarnation bookkeeping
 func (r *coRunner) record(s coStep) {
 	s.mem, s.store, s.offs = r.snapMem(), r.snapStore(), r.offsets()
+	if r.cur != nil {
+		s.fail = r.cur.op.Fail
+	}
 	if len(r.steps) > 0 && s.kind != "failover" {
 		// a member that was in the coordinator's memory before this operation and is not
 		// after it has been removed (left, expired, dropped): it is fenced from now on
@@ -490,7 +506,7 @@ func (r *coRunner) record(s coStep) {
 			r.fail("C13", "generation-decreased", fmt.Sprintf("the group had generation %d and now has %d", r.genSeen, s.mem.gen))
 		}
 	}
-	if r.depth == 1 && s.kind != "failover" && s.mem != nil {
+	if r.depth == 1 && s.kind != "failover" && s.mem != nil && !r.dirty {
 		// C15: at a quiescent point (the operation returned, nothing parked) the store
 		// holds the group as it is in memory -- what a coordinator taking over would load
 		if pg := r.fetchStored(); pg == nil {
@@ -500,6 +516,9 @@ func (r *coRunner) record(s coStep) {
 		}
 	}
 	r.steps = append(r.steps, s)
+	if s.mem == nil && r.dirty {
+		r.resyncFromStore()
+	}
 	if s.mem == nil && s.store == nil && (r.maxGen != 0 || len(r.sub) > 0) {
 		// the group is gone: a later group of the same name is a new incarnation
 		r.epoch++
@@ -530,17 +549,40 @@ func (r *coRunner) exec(op coOp) {
 		}
 		return
 	}
-	outer := r.cur
-	g := &coGate{op: op}
+	outer, outerGate := r.cur, r.store.gate
+	g := &coGate{op: op, fired: map[string]bool{}}
 	r.cur = g
 	r.depth++
 	if op.K != "failover" {
-		r.store.gate = func(call string) {
-			if r.cur != g || g.interleaved {
-				return
+		left := map[string]bool{}
+		for _, f := range op.Fail {
+			left[f] = true
+		}
+		inject := func(call string) error {
+			kind := map[string]string{"fetch": "fetch", "put": "persist", "delete": "persist", "commit": "commit"}[call]
+			if kind != "" && left[kind] {
+				left[kind] = false
+				g.fired[kind] = true
+				r.tags["fault:"+op.K+":"+kind] = true
+				if kind == "persist" {
+					r.dirty = true
+				}
+				return fmt.Errorf("injected transient store error in %s", coStoreCallName(call))
+			}
+			if call == "put" || call == "delete" {
+				r.dirty = false // a whole-group write lands
+			}
+			return nil
+		}
+		r.store.gate = func(call string) error {
+			if r.cur != g {
+				return nil
+			}
+			if g.interleaved {
+				return inject(call)
 			}
 			if !r.c.mu.TryLock() {
-				return // the operation holds the coordinator lock across this store call: atomic
+				return inject(call) // the operation holds the coordinator lock across this store call: atomic
 			}
 			r.c.mu.Unlock()
 			if g.call == "" {
@@ -555,6 +597,7 @@ func (r *coRunner) exec(op coOp) {
 				}
 				r.cur = g
 			}
+			return inject(call)
 		}
 	}
 	switch op.K {
@@ -573,7 +616,7 @@ func (r *coRunner) exec(op coOp) {
 	case "failover":
 		r.doFailover()
 	}
-	r.store.gate = nil
+	r.store.gate = outerGate
 	r.cur = outer
 	r.depth--
 	if len(op.Inner) > 0 {
@@ -586,10 +629,6 @@ func (r *coRunner) exec(op coOp) {
 			}
 		}
 	}
-	if outer != nil {
-		// back inside the outer operation's parked store call
-		r.store.gate = nil
-	}
 }
 
 func coStoreCallName(call string) string {
@@ -598,6 +637,27 @@ func coStoreCallName(call string) string {
 
 // interleaved: other operations completed while the current one was inside a store call
 func (r *coRunner) interleaved() bool { return r.cur != nil && r.cur.interleaved }
+
+// fired: an injected store fault hit this operation
+func (r *coRunner) fired(kind string) bool { return r.cur != nil && r.cur.fired[kind] }
+func (r *coRunner) anyFault() bool         { return r.cur != nil && len(r.cur.fired) > 0 }
+
+// resyncFromStore: after a failed whole-group write the coordinator's memory was dropped
+// (failover, or the group was deleted from memory): whoever loads the group next sees the
+// store's older image -- that is now the truth the oracles measure against.
+func (r *coRunner) resyncFromStore() {
+	r.sub, r.lastGen, r.sess, r.refresh, r.changedSub, r.hbRebal = map[string][]string{}, map[string]int32{}, map[string]int64{}, map[string]int64{}, map[string]bool{}, map[string]bool{}
+	r.fenced, r.genSeen, r.maxGen, r.kw, r.preFailover, r.dirty = map[string]bool{}, 0, 0, nil, nil, false
+	r.failoverIn = true
+	r.epoch++ // syncs logged so far belong to a past that the store does not know
+	if pg := r.fetchStored(); pg != nil {
+		g := coSnapGroup(restoreGroupState(pg), r.base)
+		r.genSeen, r.maxGen = g.gen, g.gen
+		for _, m := range g.members {
+			r.sub[m.id], r.lastGen[m.id], r.sess[m.id], r.refresh[m.id] = m.topics, g.gen, m.sess, m.hb
+		}
+	}
+}
 
 func (r *coRunner) doJoin(ctx context.Context, op coOp) {
 	r.preFailover = nil
@@ -615,6 +675,11 @@ func (r *coRunner) doJoin(ctx context.Context, op coOp) {
 	now := r.now()
 	resp, err := r.c.JoinGroup(ctx, req)
 	st := coStep{kind: "join", mid: id, sess: op.Sess, reb: op.Reb, topics: op.Topics, now: now}
+	if (err != nil || resp == nil) && r.fired("fetch") {
+		st.reply = coReply{kind: "fail"} // the group could not be loaded: a Go error, nothing changed
+		r.record(st)
+		return
+	}
 	if err != nil || resp == nil {
 		r.fail("*", "join-error", fmt.Sprintf("JoinGroup returned error %v", err))
 		return
@@ -680,7 +745,9 @@ func (r *coRunner) doJoin(ctx context.Context, op coOp) {
 	}
 	if len(resp.Members) > 0 {
 		r.tags["join-member-list"] = true
-		if resp.ErrorCode != protocol.NONE || resp.MemberID != resp.LeaderID {
+		if resp.ErrorCode == protocol.UNKNOWN_SERVER_ERROR && r.fired("persist") {
+			r.fail("C14", "member-list-in-error-reply", fmt.Sprintf("join reply of %s reports the store failure (error %d) and still carries %d members", me, resp.ErrorCode, len(resp.Members)))
+		} else if resp.ErrorCode != protocol.NONE || resp.MemberID != resp.LeaderID {
 			r.fail("C14", "member-list-to-non-leader", fmt.Sprintf("join reply (error %d, member %s, leader %s) carries %d members", resp.ErrorCode, me, resp.LeaderID, len(resp.Members)))
 		}
 	}
@@ -698,15 +765,17 @@ func (r *coRunner) doSync(ctx context.Context, op coOp) {
 	req.Generation = gen
 	now := r.now()
 	resp, err := r.c.SyncGroup(ctx, req)
+	if (err != nil || resp == nil) && r.fired("fetch") {
+		r.record(coStep{kind: "sync", mid: id, gen: gen, now: now, reply: coReply{kind: "fail"}})
+		return
+	}
 	if err != nil || resp == nil {
 		r.fail("*", "sync-error", fmt.Sprintf("SyncGroup returned error %v", err))
 		return
 	}
 	st := coStep{kind: "sync", mid: id, gen: gen, now: now}
 	st.reply = coReply{kind: "sync", err: resp.ErrorCode}
-	if resp.ErrorCode == protocol.NONE {
-		st.reply.assign = coDecodeAssignment(resp.MemberAssignment)
-	}
+	st.reply.assign = coDecodeAssignment(resp.MemberAssignment)
 	post := r.view()
 	current := r.isCurrent(pre, id, gen)
 	if r.interleaved() {
@@ -725,14 +794,14 @@ func (r *coRunner) doSync(ctx context.Context, op coOp) {
 		r.checkOffsetsUnchanged("C13", "sync", offsBefore)
 	}
 	// ---- C14: once the leader has synced (Stable), every member's sync in that generation succeeds ----
-	if current && pre.phase == groupStateStable && resp.ErrorCode != protocol.NONE {
+	if current && pre.phase == groupStateStable && resp.ErrorCode != protocol.NONE && !r.anyFault() {
 		r.fail("C14", "sync-after-leader-sync-rejected", fmt.Sprintf("sync of current member %s in Stable generation %d answered %d", id, gen, resp.ErrorCode))
 	}
-	if current && pre.phase == groupStateCompletingRebalance && pre.leader == id && resp.ErrorCode != protocol.NONE {
+	if current && pre.phase == groupStateCompletingRebalance && pre.leader == id && resp.ErrorCode != protocol.NONE && !r.anyFault() {
 		r.fail("C14", "leader-sync-rejected", fmt.Sprintf("sync of the leader %s after everybody rejoined generation %d answered %d", id, gen, resp.ErrorCode))
 	}
 	// ---- C15: a current member keeps working after failover ----
-	if r.kw != nil && r.kw.member(id) != nil && r.kw.gen == gen {
+	if r.kw != nil && r.kw.member(id) != nil && r.kw.gen == gen && !r.anyFault() {
 		r.tags["after-failover-sync"] = true
 		if resp.ErrorCode != protocol.NONE || !coSameAssign(st.reply.assign, r.kw.assignment(id)) {
 			r.fail("C15", "sync-differs-after-failover", fmt.Sprintf("sync of %s after failover (no join, leave or due expiry since): error %d assignment %v, before failover its assignment was %v", id, resp.ErrorCode, st.reply.assign, r.kw.assignment(id)))
@@ -883,6 +952,10 @@ func (r *coRunner) doHeartbeat(ctx context.Context, op coOp) {
 	now := r.now()
 	resp := r.c.Heartbeat(ctx, req)
 	st := coStep{kind: "hb", mid: id, gen: gen, now: now, reply: coReply{kind: "err", err: resp.ErrorCode}}
+	if r.fired("fetch") {
+		r.record(st) // the group could not be loaded: UNKNOWN_SERVER_ERROR, nothing changed
+		return
+	}
 	current := r.isCurrent(pre, id, gen)
 	if r.interleaved() {
 		current = current && r.isCurrent(r.view(), id, gen)
@@ -903,7 +976,7 @@ func (r *coRunner) doHeartbeat(ctx context.Context, op coOp) {
 	if !r.interleaved() {
 		r.checkOffsetsUnchanged("C13", "heartbeat", offsBefore)
 	}
-	if r.kw != nil && r.kw.member(id) != nil && r.kw.gen == gen {
+	if r.kw != nil && r.kw.member(id) != nil && r.kw.gen == gen && !r.anyFault() {
 		r.tags["after-failover-hb"] = true
 		if resp.ErrorCode != protocol.NONE {
 			r.fail("C15", "heartbeat-rejected-after-failover", fmt.Sprintf("heartbeat of %s (Stable generation %d before failover; no join, leave or due expiry since) answered %d by the new coordinator", id, gen, resp.ErrorCode))
@@ -922,6 +995,10 @@ func (r *coRunner) doLeave(ctx context.Context, op coOp) {
 	now := r.now()
 	resp := r.c.LeaveGroup(ctx, req)
 	st := coStep{kind: "leave", mid: id, now: now, reply: coReply{kind: "err", err: resp.ErrorCode}}
+	if r.fired("fetch") {
+		r.record(st)
+		return
+	}
 	if post := r.view(); post != nil {
 		r.dropGone(post)
 	}
@@ -948,6 +1025,10 @@ func (r *coRunner) doCommit(ctx context.Context, op coOp) {
 	now := r.now()
 	resp, err := r.c.OffsetCommit(ctx, req)
 	interleaved := r.interleaved()
+	if (err != nil || resp == nil) && r.fired("fetch") {
+		r.record(coStep{kind: "commit", mid: id, gen: gen, t: op.T % len(coTopicNames), p: op.P, off: op.Off, now: now, reply: coReply{kind: "fail"}})
+		return
+	}
 	if err != nil || resp == nil || len(resp.Topics) != 1 || len(resp.Topics[0].Partitions) != 1 {
 		r.fail("*", "commit-error", fmt.Sprintf("OffsetCommit returned %v / malformed response", err))
 		return
@@ -973,7 +1054,7 @@ func (r *coRunner) doCommit(ctx context.Context, op coOp) {
 			r.fail("C13", "commit-lands-after-rebalance", fmt.Sprintf("OffsetCommit of %s (generation %d) released the coordinator lock before writing: %d operation(s) ran in between, after them the member is present=%v in generation %d, yet offset %d was written and answered NONE", id, gen, len(op.Inner), at.member(id) != nil, coGen(at), op.Off))
 		}
 	}
-	if r.kw != nil && r.kw.member(id) != nil && r.kw.gen == gen && !interleaved {
+	if r.kw != nil && r.kw.member(id) != nil && r.kw.gen == gen && !interleaved && !r.anyFault() {
 		r.tags["after-failover-commit"] = true
 		if code != protocol.NONE {
 			r.fail("C15", "commit-rejected-after-failover", fmt.Sprintf("commit of %s (Stable generation %d before failover; no join, leave or due expiry since) answered %d by the new coordinator", id, gen, code))
@@ -1063,7 +1144,10 @@ func (r *coRunner) doFailover() {
 		r.failoverIn = true
 		// ---- C15: the new coordinator's view of the group ----
 		pg := r.fetchStored()
-		if pg == nil {
+		if r.dirty {
+			// the last whole-group write failed: the store legitimately holds an older image
+			r.tags["failover-with-stale-store"] = true
+		} else if pg == nil {
 			r.fail("C15", "group-lost", fmt.Sprintf("group with %d members in generation %d is not in the store", len(pre.members), pre.gen))
 		} else {
 			got := coSnapGroup(restoreGroupState(pg), r.base)
@@ -1081,7 +1165,7 @@ func (r *coRunner) doFailover() {
 			}
 		}
 		r.preFailover = pre
-		if pre.phase == groupStateStable {
+		if pre.phase == groupStateStable && !r.dirty {
 			r.kw = pre
 			r.tags["failover-of-stable-group"] = true
 		} else {
@@ -1258,7 +1342,39 @@ func coGenCase(t *testing.T, rng *vRand) *coRunner {
 	var choose func(r *coRunner, i int) (coOp, bool)
 	// windows: while the chosen operation is inside a store call, other clients issue
 	// operations on the same group -- every outer kind x store call x inner kinds
+	withWindow := func(r *coRunner, i int) (coOp, bool) { return coOp{}, false }
+	lastKind := ""
+	// transient store errors: any store call of any operation kind can fail
 	next := func(r *coRunner, i int) (coOp, bool) {
+		op, ok := withWindow(r, i)
+		if !ok {
+			return op, ok
+		}
+		switch op.K {
+		case "join", "sync", "hb", "leave", "commit", "cleanup":
+			p := 9
+			if lastKind == "failover" || i == 0 {
+				p = 30 // the load right after a failover; the very first join of a group
+			}
+			if len(op.Fail) == 0 && rng.Chance(p) {
+				switch w := rng.Intn(10); {
+				case w < 4:
+					op.Fail = []string{"persist"}
+				case w < 7:
+					op.Fail = []string{"fetch"}
+				case w < 8:
+					op.Fail = []string{"commit"}
+				case w < 9:
+					op.Fail = []string{"fetch", "persist"}
+				default:
+					op.Fail = []string{"persist", "commit"}
+				}
+			}
+		}
+		lastKind = op.K
+		return op, ok
+	}
+	withWindow = func(r *coRunner, i int) (coOp, bool) {
 		op, ok := choose(r, i)
 		if !ok || len(op.Inner) > 0 || !rng.Chance(16) {
 			return op, ok
@@ -1685,6 +1801,15 @@ func (r *coRunner) coq() string {
 		case "failover":
 			ops[i] = "Failover"
 		}
+		flt := func(k string) string {
+			for _, f := range s.fail {
+				if f == k {
+					return "true"
+				}
+			}
+			return "false"
+		}
+		ops[i] = fmt.Sprintf("(%s, mkFault %s %s %s)", ops[i], flt("fetch"), flt("persist"), flt("commit"))
 		var rep string
 		switch s.reply.kind {
 		case "join":
@@ -1697,8 +1822,15 @@ func (r *coRunner) coq() string {
 			rep = fmt.Sprintf("(RSync %s %s)", cqZ(int64(s.reply.err)), coAssignZ(s.reply.assign))
 		case "err":
 			rep = fmt.Sprintf("(RErr %s)", cqZ(int64(s.reply.err)))
+		case "fail":
+			rep = ""
 		default:
 			rep = "RNone"
+		}
+		if rep == "" {
+			rep = "None"
+		} else {
+			rep = "(Some " + rep + ")"
 		}
 		mem := "None"
 		if g := s.mem; g != nil {
@@ -1773,6 +1905,12 @@ func coCorpus() []coCase {
 			{K: "sync", M: 0, Inner: []coOp{{K: "leave", M: 1}}}, {K: "hb", M: 0}, {K: "sync", M: 0, G: 1}, {K: "failover"}, {K: "hb", M: 0, G: 1}}},
 		{Parts: p, Seed: 21, Ops: []coOp{{K: "join", M: -1, Topics: []int{0}}, {K: "sync", M: 0},
 			{K: "join", M: -1, Topics: []int{0}, At: "put", Inner: []coOp{{K: "join", M: -1, Topics: []int{1}}}}, {K: "failover"}, {K: "hb", M: 1, G: 1}, {K: "hb", M: 2, G: 1}}},
+		// store faults: the first join's write fails, the client retries; the leader's sync write
+		// fails; the last member's delete fails; the load after a failover fails once
+		{Parts: p, Seed: 22, Ops: []coOp{{K: "join", M: -1, Topics: []int{0}, Fail: []string{"persist"}}, {K: "join", M: -1, Topics: []int{0}}, {K: "join", M: 0, Topics: []int{0}}, {K: "sync", M: 0, Fail: []string{"persist"}}, {K: "sync", M: 0}, {K: "sync", M: 1}, {K: "hb", M: 1}}},
+		{Parts: p, Seed: 23, Ops: []coOp{{K: "join", M: -1, Topics: []int{0}}, {K: "sync", M: 0}, {K: "leave", M: 0, Fail: []string{"persist"}}, {K: "hb", M: 0, G: 1}, {K: "join", M: -1, Topics: []int{0}}, {K: "sync", M: 1}}},
+		{Parts: p, Seed: 24, Ops: []coOp{{K: "join", M: -1, Sess: 5000, Topics: []int{0}}, {K: "sync", M: 0}, {K: "failover"}, {K: "hb", M: 0, G: 1, Fail: []string{"fetch"}}, {K: "sync", M: 0, G: 1, Fail: []string{"fetch"}}, {K: "hb", M: 0, G: 1},
+			{K: "adv", D: 5001}, {K: "cleanup", Fail: []string{"persist"}}, {K: "failover"}, {K: "hb", M: 0, G: 1}, {K: "commit", M: 0, G: 1, T: 0, P: 0, Off: 4, Fail: []string{"commit"}}}},
 		// C14 / C43: laggers at the rebalance deadline
 		{Parts: p, Seed: 16, Ops: []coOp{{K: "join", M: -1, Sess: 40000, Reb: 5000, Topics: []int{0}}, {K: "sync", M: 0}, {K: "join", M: -1, Sess: 40000, Reb: 5000, Topics: []int{0}}, {K: "adv", D: 4999}, {K: "cleanup"}, {K: "adv", D: 1}, {K: "cleanup"},
 			{K: "join", M: 1, Sess: 40000, Reb: 5000, Topics: []int{0}}, {K: "sync", M: 1}}},
@@ -1788,7 +1926,7 @@ func coWriteCases(rep *vReport, prop string, coq, jsons []string) {
 		}
 		fn := fmt.Sprintf("cases_%s_%02d_0.v", prop, k)
 		var sb strings.Builder
-		sb.WriteString("From KS Require Import lib.Base model.Coordinator corr.CoordinatorCorr.\nOpen Scope Z_scope.\n")
+		sb.WriteString("From KS Require Import lib.Base model.Coordinator model.CoordinatorFaults corr.CoordinatorCorr.\nOpen Scope Z_scope.\n")
 		names := make([]string, 0, j-i)
 		for n, c := range coq[i:j] {
 			sb.WriteString(fmt.Sprintf("(*#%d*) Definition c%d : case := %s.\n", n, n, strings.ReplaceAll(c, "\n", " ")))
